@@ -26,13 +26,13 @@ META = {
     "multi-line constructs (comment, raw, string literal, expression, tag; own line or glued to the fault line) x 7 "
     "fault forms (1 863 680 cases).  Space B (compiler/debug-centric): 30 nesting contexts (blocks, overridden blocks, super(), macros, "
     "call blocks, loops, filtered loops, conditionals, set/filter blocks, includes, imports, parents, two-level nestings) x positions "
-    "x 2 line-break forms x 4 flag settings (trim+lstrip, enable_async) x 4 whitespace settings x 3 preceding constructs x 10 fault forms (576 000 cases).  "
+    "x 2 line-break forms x 4 flag settings (trim+lstrip, enable_async) x 4 whitespace settings x 3 preceding constructs x 10 fault forms x 2 filler kinds (constant-folded / variable; 1 152 000 cases).  "
     "Runtime faults: the innermost traceback frame whose code filename is a template filename must be (file of the "
     "fault, line of the fault) and the exception must be the very object raised.  Syntax faults: TemplateSyntaxError "
     "lineno/name/filename and the synthetic traceback frame must be that position.",
     "note": "Templates come from a FunctionLoader that supplies a distinct file name per template.  Faults are single-line "
     "constructs (plus two syntax faults whose offending token is on the line after the tag start).  Bounds: quick "
-    "skeletons of 2-3 lines, 2 contexts / 2 flag settings / 8 whitespace settings / 4 fault forms in space A (33 280 + 144 000 "
+    "skeletons of 2-3 lines, 2 contexts / 2 flag settings / 8 whitespace settings / 4 fault forms in space A, 2 whitespace settings in space B (33 280 + 144 000 "
     "cases), thorough 2-6 lines; not a full cross product of all dimensions (two sub-spaces, see text).",
     "design_ref": "DESIGN.md §4 C35",
 }
@@ -41,6 +41,9 @@ FILL = "text{{ 1 }}"
 # a line that is not constant-folded, put after closing tags so that code
 # generated later (block functions) maps to earlier template lines
 TAIL = "tail{{ t }}"
+# skeleton filler lines: the constant one is folded into plain data at compile time (no
+# line info of its own), the variable one gives every skeleton line its own debug mapping
+FILLERS = {"const": FILL, "var": "text{{ t }}"}
 
 
 class Boom(Exception):
@@ -224,12 +227,13 @@ CONTEXTS_A = ["top", "block", "for", "macro"]
 def build(case):
     """case -> (files {name: source}, entry, fault file name, expected 1-based
     line, fault kind, env kwargs)."""
-    ctx, n, pos, lb, flags, ws, pre, fault = case
+    ctx, n, pos, lb, flags, ws, pre, fault, filler = case
+    fill = FILLERS[filler]
     O, C, L, R = ws
     kind, flines, foff = FAULTS[fault]
     flines = [x.replace("{L}", L).replace("{R}", R) for x in flines]
     plines, glued = PRE[pre]
-    body = [FILL] * pos
+    body = [fill] * pos
     body += plines
     if glued:
         at = len(body) - 1
@@ -238,7 +242,7 @@ def build(case):
     else:
         at = len(body)
         body += flines
-    body += [FILL] * (n - pos - 1)
+    body += [fill] * (n - pos - 1)
     files, entry, fname, off = CONTEXTS[ctx](body, O, C)
     brk = BREAKS[lb]
     srcs = {}
@@ -355,8 +359,8 @@ def shard(arg):
     p = core.Part()
     for tail in itertools.product(*dims):
         case = tuple(head) + tuple(tail)
-        ctx, np_, lb, flags, ws, pre, fault = case
-        case = (ctx, np_[0], np_[1], lb, flags, tuple(ws), pre, fault)
+        ctx, np_, lb, flags, ws, pre, fault, filler = case
+        case = (ctx, np_[0], np_[1], lb, flags, tuple(ws), pre, fault, filler)
         p.evals += 1
         exp, obs, kind, srcs = observe(case)
         if obs[0] == exp[0]:
@@ -389,13 +393,16 @@ def space(quick):
     pos = positions(nmax)
     if quick:
         dims_a = [["top", "for"], pos, list(BREAKS), ["", "tl"], [w for w in ws16 if w[0] == w[1]], list(PRE),
-                  ["out", "syn-expr", "syn-lex", "syn-tag-split"]]
+                  ["out", "syn-expr", "syn-lex", "syn-tag-split"], ["const"]]
     else:
         dims_a = [CONTEXTS_A, pos, list(BREAKS), ["", "t", "l", "tl"], ws16, list(PRE),
-                  ["out", "mixed", "syn-expr", "syn-tag", "syn-lex", "syn-expr-split", "syn-tag-split"]]
-    dims_b = [list(CONTEXTS), pos, ["lf", "mixed"], ["", "tl", "a", "atl"],
-              [("", "", "", ""), ("-", "", "", ""), ("", "-", "", ""), ("-", "-", "-", "-")], ["none", "comment", "expr"],
-              ["out", "mixed", "set", "if", "for", "filter", "syn-expr", "syn-tag", "syn-lex", "syn-tag-split"]]
+                  ["out", "mixed", "syn-expr", "syn-tag", "syn-lex", "syn-expr-split", "syn-tag-split"], ["const"]]
+    ws_b = [("", "", "", ""), ("-", "", "", ""), ("", "-", "", ""), ("-", "-", "-", "-")]
+    if quick:
+        ws_b = [ws_b[0], ws_b[3]]
+    dims_b = [list(CONTEXTS), pos, ["lf", "mixed"], ["", "tl", "a", "atl"], ws_b, ["none", "comment", "expr"],
+              ["out", "mixed", "set", "if", "for", "filter", "syn-expr", "syn-tag", "syn-lex", "syn-tag-split"],
+              ["const", "var"]]
     shards = []
     counts = []
     for dims, nhead in ((dims_a, 3), (dims_b, 2)):
@@ -412,7 +419,7 @@ def run(ctx: core.Ctx):
     core.import_all_jinja()
     ctx.rule = ("one case = (nesting context, skeleton length, fault position, line-break form, trim/lstrip flags, "
                 "whitespace-control signs of the opening tag / closing tag / faulty tag, preceding multi-line construct, "
-                "fault form); every combination of the two declared sub-spaces is built and rendered once in a fresh "
+                "fault form, filler kind); every combination of the two declared sub-spaces is built and rendered once in a fresh "
                 "Environment.  Non-trivial = the planted fault actually fired as the intended kind of error (runtime "
                 "Boom or TemplateSyntaxError); distinct = distinct (context, fault form, preceding construct, expected line)")
     ctx.assumptions += [
